@@ -1,0 +1,29 @@
+//go:build verif
+
+package code
+
+// Re-exports of the unexported opcode encoders for the verification harness
+// (/verif, property C04).  Nothing here is compiled without the build tag
+// "verif"; nothing here changes behaviour.
+
+// VerifReg builds a register with an arbitrary RegType byte.
+func VerifReg(tp, idx uint8) Reg { return Reg{tp: RegType(tp), idx: idx} }
+
+func VerifMkType1(op uint8, a, b, c Reg) Opcode { return mkType1(BinOp(op), a, b, c) }
+func VerifMkType2(f uint8, a, b, c Reg) Opcode  { return mkType2(Flag(f), a, b, c) }
+func VerifMkType3(f, op uint8, a Reg, n uint16) Opcode {
+	return mkType3(Flag(f), UnOpK16(op), a, Lit16(n))
+}
+func VerifMkType4a(f, op uint8, a, b Reg) Opcode { return mkType4a(Flag(f), UnOp(op), a, b) }
+func VerifMkType4b(f, op uint8, a Reg, l uint8) Opcode {
+	return mkType4b(Flag(f), UnOpK(op), a, Lit8(l))
+}
+func VerifMkType5Offset(f, op uint8, a Reg, d int16) Opcode {
+	return mkType5(Flag(f), JumpOp(op), a, Offset(d))
+}
+func VerifMkType5ClStack(f, op uint8, a Reg, d uint16) Opcode {
+	return mkType5(Flag(f), JumpOp(op), a, ClStackOffset(d))
+}
+func VerifMkType6(f uint8, a, b Reg, i uint8) Opcode { return mkType6(Flag(f), a, b, Index8(i)) }
+func VerifMkType7(f uint8, a, b, c Reg) Opcode       { return mkType7(Flag(f), a, b, c) }
+func VerifMkType0(f uint8, a Reg) Opcode             { return mkType0(Flag(f), a) }
